@@ -170,7 +170,7 @@ def contract(bx):
     o.append('    lemma_%s_pre_len(*self);' % n)
     o.append('  end')
     # stepwise: after the j-th write statement (1 = box header, 2 = version/flags, 3.. = fields in source order)
-    o.append('  proof after-write #2')
+    o.append('  proof [C04+C05.encode.step] after-write #2')
     o.append('    lemma_wr_wr(old(writer).data(), old(writer).pos() as int, hdr_bytes(%s_len(*self) as u64, 0x%08x), fullbox_bytes(self.version, self.flags));' % (n, bx['code']))
     o.append('    assert(writer.data() == wr(old(writer).data(), old(writer).pos() as int, %s_pre_0(*self)));' % n)
     o.append('  end')
@@ -183,7 +183,7 @@ def contract(bx):
             by = 'be_bytes((%s as u%d) as nat, %d)' % (f.val.replace('b.', 'self.'), f.w * 8, f.w)
         else:
             by = 'be_bytes(%s as nat, %d)' % (f.val.replace('b.', 'self.'), f.w)
-        o.append('  proof after-write #%d' % (k + 3))
+        o.append('  proof [C04+C05.encode.step] after-write #%d' % (k + 3))
         o.append('    lemma_wr_wr(old(writer).data(), old(writer).pos() as int, %s_pre_%d(*self), %s);' % (n, k, by))
         o.append('    assert(writer.data() == wr(old(writer).data(), old(writer).pos() as int, %s_pre_%d(*self)));' % (n, k + 1))
         o.append('    assert(writer.pos() == old(writer).pos() + %s_off_%d(*self));' % (n, k + 1))
